@@ -210,7 +210,7 @@ func main() {
 		chainmc.ReplayFile(run, m)
 		return
 	}
-	run.SetBudget(6*60e9, 20*60e9)
+	run.SetBudget(8*60e9, 20*60e9)
 	depth := 3
 	if run.Thorough() {
 		depth = 5
